@@ -1,6 +1,7 @@
 /-
 C08, `JoinHandle::join` (`src/thread.rs`): the `JoinHandle`'s notify is created non-spurious by
-`spawn`, notified by the spawned thread's epilogue BEFORE `thread_done`, and waited on by `join`.
+`spawn`, notified by the spawned thread's epilogue AFTER its thread-local destructors (repair of finding
+F20) and BEFORE `thread_done`, and waited on by `join`.
 -/
 import LoomVerif.Proofs.C08Only
 import LoomVerif.Proofs.InterpMaxTh
@@ -43,20 +44,21 @@ theorem join_never_spurious {w w' : World} {o st : Nat} {s : NotifySt}
     (h : w.exec.objs[o]? = some (.notify s)) (hr : w.notifyWait1 o = .ok (w', st)) : st = 1 :=
   wait1_not_spurious h (hsteps.facts.2.1) hr
 
-/-- the epilogue of a spawned thread, second stage (`0 < fin < 10`): `notify` on the `JoinHandle`'s
-object, and the thread enters the common tail (`fin := 10`: `drop_locals`, the destructors and only
-THEN `thread_done`, see `epilogue_tail_keeps`); the flag is set and the exiting thread's causality
-is released into the object -/
+/-- the epilogue of a spawned thread, the stage of `notify`'s effect (`fin = 1`; reached from the branch
+point, see `epilogue_branch_stage`): `notify` on the `JoinHandle`'s object, and the thread enters the common
+tail (`fin := 10`: the second `drop_locals`, its destructors and only THEN `thread_done`, see
+`epilogue_tail_keeps`); the flag is set and the exiting thread's causality is released into the object -/
 theorem epilogue_notifies_then_exits {w w' : World} {c : TCtl} {b n : Nat} {s : NotifySt}
     (ht : w.tid ≠ 0) (hsp : w.spawned.find? (·.2.1 == w.tid) = some (b, w.tid, n))
-    (hn : w.exec.objs[n]? = some (.notify s)) (hfin : c.fin ≠ 0) (hlt : c.fin < 10)
+    (hn : w.exec.objs[n]? = some (.notify s)) (hfin : c.fin ≠ 0) (hlt : c.fin < 3)
     (h : w.runEpilogue c = .ok w') :
     ∃ w1 s1, w.notifyEffect n = .ok w1 ∧
       w' = w1.modCtl w.tid (fun c => { c with fin := 10 }) ∧
       w1.exec.objs[n]? = some (.notify s1) ∧ s1.notified = true ∧ w.ths.caus.le s1.sync.hb ∧
       w'.exec.objs[n]? = some (.notify s1) := by
-  rw [runEpilogue_spawned w c b n ht hsp hlt] at h
-  simp only [hfin, beq_iff_eq, if_false] at h
+  rw [runEpilogue_spawned w c b n ht hsp (by omega)] at h
+  have h3 : ¬ 3 ≤ c.fin := by omega
+  simp only [hfin, h3, beq_iff_eq, if_false] at h
   obtain ⟨w1, h1, h2⟩ := bind_ok h
   obtain ⟨s1, hs1, hnot, _, _, hle, _⟩ := notifyEffect_hb hn h1
   cases h2
@@ -108,6 +110,66 @@ theorem primStart_keeps {w w' : World} {x : Nat} {p : Prim} {next : Nat}
     exact k
   · cases h; exact .refl _
 
+/-- an atomic store changes the thread table only through `rt::synchronize` (the storing thread's
+causality is incremented) -/
+theorem primEffect_store_ths {w w' : World} {x : Nat} {v : Int} {o : Ord} {r : Ret}
+    (h : w.primEffect x (.store v o) = .ok (w', r)) : w'.ths = w.sync.ths := by
+  unfold World.primEffect at h
+  simp only [Prim.synchronizes, if_true, Prim.candidates, Prim.effect, bind, Except.bind, pure,
+    Except.pure] at h
+  repeat' split at h
+  all_goals first
+    | (cases h; done)
+    | (cases h; rename_i h2; split at h2 <;> cases h2; rfl)
+
+theorem sync_terminated (w : World) (i : Nat) :
+    (w.sync.ths.get i).isTerminated = (w.ths.get i).isTerminated :=
+  term_modify _ _ _ _ (fun _ => rfl)
+
+theorem primStart_terminated {w w' : World} {x : Nat} {p : Prim} {next : Nat}
+    (h : w.primStart x p next = .ok w') (i : Nat)
+    (ht : (w'.ths.get i).isTerminated = true) : (w.ths.get i).isTerminated = true := by
+  unfold World.primStart at h
+  split at h
+  · dsimp only at h
+    exact branch_terminated h i ht
+  · cases h; exact ht
+
+/-- a step keeps every notify object and terminates nobody -/
+def Quiet (w w' : World) : Prop :=
+  NotifyKept w.exec.objs w'.exec.objs ∧
+    ∀ i, (w'.ths.get i).isTerminated = true → (w.ths.get i).isTerminated = true
+
+/-- one pass of `drop_locals` with the destructors' stores keeps every notify object and terminates
+nobody, if what follows the pass (`done`) does -/
+theorem dropPass_quiet {w w' : World} {c : TCtl} {base : Nat} {done : World → Except Panic World}
+    (hd : ∀ w1 w2, done w1 = .ok w2 → Quiet w1 w2)
+    (h : w.dropPass c base done = .ok w') : Quiet w w' := by
+  rw [dropPass_eq] at h
+  split at h
+  · cases h
+    refine ⟨?_, fun i hi => ?_⟩
+    · show NotifyKept w.exec.objs w.dropLocals.exec.objs
+      rw [World.dropLocals_exec]; exact .refl _
+    · have e : (w.dropLocals.modCtl w.tid fun c => { c with fin := base + 1 }).ths = w.ths := by
+        show w.dropLocals.exec.threads = _
+        rw [World.dropLocals_exec]; rfl
+      rw [e] at hi; exact hi
+  · split at h
+    · split at h
+      · exact hd _ _ h
+      · have k1 := primStart_keeps h
+        exact ⟨k1, fun i hi => primStart_terminated h i hi⟩
+    · split at h
+      · cases h
+      · obtain ⟨⟨w1, r⟩, h1, h2⟩ := bind_ok h
+        cases h2
+        have k1 := primEffect_keeps h1
+        refine ⟨k1, fun i hi => ?_⟩
+        have hi' : (w1.ths.get i).isTerminated = true := hi
+        rw [primEffect_store_ths h1, sync_terminated] at hi'
+        exact hi'
+
 /-- the common tail of every thread (`fin ≥ 10`: `drop_locals`, the thread-local destructors'
 stores, `thread_done`) leaves every notify object alone: the flag raised by the epilogue's `notify`
 is still set in the state in which the thread has exited -/
@@ -117,29 +179,73 @@ theorem epilogue_tail_keeps {w w' : World} {c : TCtl} (hge : 10 ≤ c.fin)
   rw [runEpilogue_finish w c hge] at h
   refine ⟨h, ?_⟩
   unfold World.finishThread at h
-  simp only [bind, Except.bind, pure, Except.pure] at h
-  repeat' split at h
-  all_goals first
-    | (cases h; done)
-    | (cases h
-       show NotifyKept w.exec.objs w.dropLocals.exec.objs
-       rw [World.dropLocals_exec]; exact .refl _)
-    | (have k := threadDone_keeps h; exact k)
-    | (have k := primStart_keeps h; exact k)
-    | (cases h; have k := primEffect_keeps ‹_›; exact k)
+  split at h
+  · cases h
+  · rw [dropPass_eq] at h
+    repeat' split at h
+    all_goals first
+      | (cases h; done)
+      | (cases h
+         show NotifyKept w.exec.objs w.dropLocals.exec.objs
+         rw [World.dropLocals_exec]; exact .refl _)
+      | (have k := threadDone_keeps h; exact k)
+      | (have k := primStart_keeps h; exact k)
+      | (obtain ⟨⟨w1, r⟩, h1, h2⟩ := bind_ok h
+         cases h2; have k := primEffect_keeps h1; exact k)
 
-/-- the epilogue's first stage is only the branch point of `notify`: it terminates nobody and
-raises no flag -/
-theorem epilogue_first_stage {w w' : World} {c : TCtl} {b n : Nat}
+/-- the stages of a spawned thread's epilogue BEFORE the effect of `notify` (`fin = 0`: the first
+`drop_locals`; `3 ≤ fin < 10`: the loop of the destructors' stores and, when the queue is empty, the branch
+point of `notify`): they terminate nobody and raise no flag -/
+theorem epilogue_before_notify {w w' : World} {c : TCtl} {b n : Nat}
     (ht : w.tid ≠ 0) (hsp : w.spawned.find? (·.2.1 == w.tid) = some (b, w.tid, n))
-    (hfin : c.fin = 0) (h : w.runEpilogue c = .ok w') :
+    (hfin : c.fin = 0 ∨ 3 ≤ c.fin) (hlt : c.fin < 10) (h : w.runEpilogue c = .ok w') :
+    NotifyKept w.exec.objs w'.exec.objs ∧
+    ∀ i, (w'.ths.get i).isTerminated = true → (w.ths.get i).isTerminated = true := by
+  rw [runEpilogue_spawned w c b n ht hsp hlt] at h
+  split at h
+  · cases h
+    refine ⟨?_, fun i hi => ?_⟩
+    · show NotifyKept w.exec.objs w.dropLocals.exec.objs
+      rw [World.dropLocals_exec]; exact .refl _
+    · have e : (w.dropLocals.modCtl w.tid fun c => { c with fin := 4 }).ths = w.ths := by
+        show w.dropLocals.exec.threads = _
+        rw [World.dropLocals_exec]; rfl
+      rw [e] at hi; exact hi
+  · next h0 =>
+    have h3 : 3 ≤ c.fin := by
+      rcases hfin with e | e
+      · simp [e] at h0
+      · exact e
+    rw [if_pos h3] at h
+    refine dropPass_quiet ?_ h
+    intro w1 w2 h2
+    exact ⟨@branch_keeps (w1.modCtl w.tid fun c => { c with fin := 1 }) w2 _ _ _ h2,
+      fun i hi => @branch_terminated (w1.modCtl w.tid fun c => { c with fin := 1 }) w2 _ _ _ h2 i hi⟩
+
+/-- the branch point of `notify` in the epilogue of a spawned thread is the head of the destructor loop
+with an EMPTY queue (`fin = 4`, `dtorQueue = []`): it terminates nobody and raises no flag -/
+theorem epilogue_branch_stage {w w' : World} {c : TCtl} {b n : Nat}
+    (ht : w.tid ≠ 0) (hsp : w.spawned.find? (·.2.1 == w.tid) = some (b, w.tid, n))
+    (hfin : c.fin = 4) (hq : c.dtorQueue = []) (h : w.runEpilogue c = .ok w') :
     (w.modCtl w.tid fun c => { c with fin := 1 }).branch n .opaque = .ok w' ∧
     NotifyKept w.exec.objs w'.exec.objs ∧
     ∀ i, (w'.ths.get i).isTerminated = true → (w.ths.get i).isTerminated = true := by
+  have hq' := epilogue_before_notify ht hsp (.inr (by omega)) (by omega) h
+  rw [runEpilogue_spawned w c b n ht hsp (by omega), dropPass_eq] at h
+  simp only [hfin, hq] at h
+  exact ⟨h, hq'⟩
+
+/-- the first stage of the epilogue of a spawned thread (`fin = 0`) is the first `drop_locals` pass: the
+thread's locals are destroyed and the destructors queued BEFORE anything is done to the `JoinHandle`'s
+notify -/
+theorem epilogue_first_stage {w w' : World} {c : TCtl} {b n : Nat}
+    (ht : w.tid ≠ 0) (hsp : w.spawned.find? (·.2.1 == w.tid) = some (b, w.tid, n))
+    (hfin : c.fin = 0) (h : w.runEpilogue c = .ok w') :
+    w' = w.dropLocals.modCtl w.tid (fun c => { c with fin := 4 }) ∧ w'.exec = w.exec := by
   rw [runEpilogue_spawned w c b n ht hsp (by omega)] at h
   simp only [hfin, beq_self_eq_true, if_true] at h
-  exact ⟨h, @branch_keeps (w.modCtl w.tid fun c => { c with fin := 1 }) w' _ _ _ h,
-    fun i hi => @branch_terminated (w.modCtl w.tid fun c => { c with fin := 1 }) w' _ _ _ h i hi⟩
+  cases h
+  exact ⟨rfl, World.dropLocals_exec w⟩
 
 /-- `join` is `Notify::wait` on the `JoinHandle`'s object: its last stage returns only if the
 flag is set, and then the joiner's causality is above the object's clock -/
@@ -169,7 +275,7 @@ any steps of the object, then the last stage of `join`: the joiner's causality i
 joined thread's causality at its exit -/
 theorem join_hb {wE wE' wJ wJ' : World} {cE cJ : TCtl} {bE b t n : Nat} {s0 s1 s2 : NotifySt}
     (ht : wE.tid ≠ 0) (hsp : wE.spawned.find? (·.2.1 == wE.tid) = some (bE, wE.tid, n))
-    (hn : wE.exec.objs[n]? = some (.notify s0)) (hfin : cE.fin ≠ 0) (hlt : cE.fin < 10)
+    (hn : wE.exec.objs[n]? = some (.notify s0)) (hfin : cE.fin ≠ 0) (hlt : cE.fin < 3)
     (hE : wE.runEpilogue cE = .ok wE') (hn1 : wE'.exec.objs[n]? = some (.notify s1))
     (hsteps : NotifySteps s1 s2)
     (hl : wJ.lookupSpawn b = .ok (t, n)) (hn2 : wJ.exec.objs[n]? = some (.notify s2))
